@@ -82,6 +82,11 @@ type Sim struct {
 
 	violation *Violation
 
+	// KnownKeys are violation classes recorded as open known findings: they are counted,
+	// not treated as the run's violation, so that the rest of the run is still explored.
+	KnownKeys map[string]bool
+	KnownHit  map[string]int
+
 	// ParkFilter decides whether a gchan yield parks (true) or passes through.
 	ParkFilter func(ctx context.Context, id, op, label string) bool
 }
@@ -233,6 +238,14 @@ func (s *Sim) Probe(kind string) { s.mu.Lock(); s.Probes[kind]++; s.mu.Unlock() 
 // Violate records the first oracle failure of the run.
 func (s *Sim) Violate(key, detailFmt string, a ...any) {
 	s.mu.Lock()
+	if s.KnownKeys[key] {
+		if s.KnownHit == nil {
+			s.KnownHit = map[string]int{}
+		}
+		s.KnownHit[key]++
+		s.mu.Unlock()
+		return
+	}
 	if s.violation == nil {
 		s.violation = &Violation{Key: key, Detail: fmt.Sprintf(detailFmt, a...)}
 	}
